@@ -330,7 +330,8 @@ def py_file(rng, idx):
             evs.append({"e": "exitClass"})
         else:
             fn_events([f for f in funcs if f["name"] == name][0])
-    return path, "\n".join(out) + "\n", {"imports": truth_imports, "classes": classes, "funcs": funcs, "events": evs}
+    return path, "\n".join(out) + "\n", {"imports": truth_imports, "classes": classes, "funcs": funcs, "events": evs,
+                                         "fromSpecs": [[k, [sp[0], list(sp[1])]] for k, sp in imports if k in ("from", "fromparen")]}
 
 
 def gen(rng, tier):
@@ -498,6 +499,11 @@ def oracle_py(path, t, c, ds):
     got_imp = sorted(i["Source"] for i in c["Imports"])
     if got_imp != exp_imp:
         ds.append(("c20-py-imports", "%s: imported modules %s expected each once: %s" % (path, got_imp, exp_imp)))
+    # `from m import u, v` / `from m import (u, v)`: each imported name under its own name
+    for kind, spec in t.get("fromSpecs", []):
+        ents = [i for i in c["Imports"] if i["Source"] == spec[0]]
+        if len(ents) == 1 and list(ents[0].get("UsageName") or []) != list(spec[1]):
+            ds.append(("c20-py-from-names", "%s: `from %s import %s`: names listed as %s" % (path, spec[0], ", ".join(spec[1]), ents[0].get("UsageName"))))
 
 
 def dedup(ds):
